@@ -186,6 +186,9 @@ func (prop) Run(in json.RawMessage, _ string) core.Result {
 	r := theBatcher.submit(&item{self: inp.Self, typ: &inp.T, text: text, imports: imports})
 	obs.Want = dumpOf(rv)
 	switch {
+	case r.infra != "":
+		obs.Compiled = "not run"
+		res.Notes = append(res.Notes, "compile-and-run skipped: "+r.infra)
 	case r.compileErr != "":
 		obs.Compiled = r.compileErr
 		res.GoViolations = append(res.GoViolations, "`var v T = <rendered>` does not compile: "+r.compileErr)
@@ -218,7 +221,12 @@ func (prop) Run(in json.RawMessage, _ string) core.Result {
 func (prop) Extra(_ *core.RNG, _ string, _ string) ([]string, []string, map[string]any) {
 	theBatcher.mu.Lock()
 	defer theBatcher.mu.Unlock()
-	return nil, nil, map[string]any{"programs_built": theBatcher.nBuilds, "literals_compiled": theBatcher.nItems, "exhaustive": false}
+	var notes []string
+	if theBatcher.nInfra > 0 {
+		notes = append(notes, fmt.Sprintf("%d generated program(s) could not be built or run because the go tool failed (timeout?); their literals were not compiled", theBatcher.nInfra))
+	}
+	return nil, notes, map[string]any{"programs_built": theBatcher.nBuilds, "literals_compiled": theBatcher.nItems,
+		"programs_not_built_infrastructure": theBatcher.nInfra, "exhaustive": false}
 }
 
 // ---- shrinking ----
